@@ -124,6 +124,10 @@ class IFunc:
 
     def __init__(self, interp, node, env, name, is_lambda=False):
         self._interp, self._node, self._env = interp, node, env
+        a = node.args
+        # Python evaluates default values once, when the function is defined
+        self._defaults = (tuple(interp.ev(d, env) for d in a.defaults),
+                          {p.arg: interp.ev(d, env) for p, d in zip(a.kwonlyargs, a.kw_defaults) if d is not None})
         self.__name__ = name
         self.__qualname__ = name
         self._is_lambda = is_lambda
@@ -361,7 +365,8 @@ class Interp:
             if r is not NotImplemented:
                 return r
         if isinstance(f, IFunc):
-            return self.run_function(f._node, f._env, args, kwargs, f.__name__, f._is_lambda)
+            return self.run_function(f._node, f._env, args, kwargs, f.__name__, f._is_lambda,
+                                     defaults=f._defaults)
         if isinstance(f, types.MethodType):
             fn = f.__func__
             if isinstance(fn, IFunc):
